@@ -69,3 +69,16 @@ class Current(pd.Series):
             Current: self - other
         """
         return Current(self.add(-1 * other, fill_value=0))
+
+    def __mul__(self, other):
+        """ Return new Current which is self scaled by a scalar.
+
+        Args:
+            other (number): Scalar to multiply each coefficient by.
+        Returns:
+            Current: other * self
+        """
+        return Current(super().__mul__(other))
+
+    # Allow for left multiplication by a scalar as well.
+    __rmul__ = __mul__
